@@ -302,7 +302,7 @@ def snapshot_heap(v, acc=None):
 
 
 def make_cex(it, r, model, describe_args):
-    d = {"decisions": list(it.trace)}
+    d = {"decisions": [(k, dd) for k, dd, _ in it.trace]}
     try:
         if describe_args is not None:
             d["args"] = describe_args(model, r.args)
